@@ -66,6 +66,9 @@ def run(ck):
         qk = qks[i % len(qks)]
         sc, grace = scenario(rng, qk)
         scen.append((f"c03-{i}", qk, sc, grace))
+    if not quick:
+        scen += [(key + "-asan", qk + ":asan", sc, grace) for (key, qk, sc, grace) in scen[:400]]
+        ck.assumptions.append("thorough: 400 scenarios repeated on an AddressSanitizer build of the harness")
     qsys.run_and_validate(ck, "C03", "TraceQuill_C03.cfg", scen, qsys.exe_of, "c03")
     ck.sample({"scenario": scen[0][0], "queue": scen[0][1], "script_head": scen[0][2].splitlines()[:25]})
 
